@@ -6,6 +6,7 @@
 // usize where the argument is a request size.
 #![allow(unused, static_mut_refs)]
 #![cfg(kani)]
+#![cfg(feature = "std")] // the allocator stubs forward to std::alloc::System
 use super::*;
 use alloc::boxed::Box;
 use alloc::vec::Vec;
